@@ -449,6 +449,80 @@ vs_query_find(const uint8_t *b, size_t n, const uint8_t *name, size_t name_len,
 	return (0);
 }
 
+/* ------------------------------------------------------------ chunked transfer coding ---- */
+/* RFC 7230 4.1:  chunked-body = *chunk last-chunk trailer-part CRLF
+ *                chunk        = chunk-size [ chunk-ext ] CRLF chunk-data CRLF
+ *                chunk-size   = 1*HEXDIG          last-chunk = 1*("0") [ chunk-ext ] CRLF
+ * Reference decoder for bodies WITHOUT chunk extensions, one pass over the bytes: returns 1
+ * iff b[0..n) is a sequence of well-formed chunks followed by a last-chunk line (whatever
+ * follows the last-chunk line - trailer, final CRLF - is ignored); then out[0..*out_len) is the
+ * concatenation of the chunk-data.  `out` must have room for n bytes. */
+static inline int
+vs_hex_val(uint8_t c) {
+	if (c >= '0' && c <= '9') return (c - '0');
+	if (c >= 'a' && c <= 'f') return (c - 'a' + 10);
+	if (c >= 'A' && c <= 'F') return (c - 'A' + 10);
+	return (-1);
+}
+static inline int
+vs_chunked_decode(const uint8_t *b, size_t n, uint8_t *out, size_t *out_len) {
+	enum { S_SIZE, S_SIZE_LF, S_DATA, S_DATA_CR, S_DATA_LF, S_DONE, S_BAD } st = S_SIZE;
+	size_t v = 0, rem = 0, olen = 0;
+	int have_digit = 0;
+
+	for (size_t i = 0; i < n; i ++) {
+		uint8_t c = b[i];
+		int h = vs_hex_val(c);
+
+		switch (st) {
+		case S_SIZE:
+			if (h >= 0) {
+				v = v * 16 + (size_t)h;
+				have_digit = 1;
+				if (v > n)	/* cannot fit: not a well-formed body of n bytes */
+					st = S_BAD;
+			} else if (c == '\r' && have_digit) {
+				st = S_SIZE_LF;
+			} else {
+				st = S_BAD;
+			}
+			break;
+		case S_SIZE_LF:
+			if (c != '\n') {
+				st = S_BAD;
+			} else if (v == 0) {
+				st = S_DONE;
+			} else {
+				rem = v;
+				st = S_DATA;
+			}
+			break;
+		case S_DATA:
+			out[olen ++] = c;
+			rem --;
+			if (rem == 0)
+				st = S_DATA_CR;
+			break;
+		case S_DATA_CR:
+			st = (c == '\r') ? S_DATA_LF : S_BAD;
+			break;
+		case S_DATA_LF:
+			if (c == '\n') {
+				st = S_SIZE;
+				v = 0;
+				have_digit = 0;
+			} else {
+				st = S_BAD;
+			}
+			break;
+		default:
+			break;
+		}
+	}
+	*out_len = olen;
+	return (st == S_DONE);
+}
+
 /* ------------------------------------------------------------------ method table ---- */
 /* the registered method names of include/proto/http.h, by code */
 static inline uint32_t
